@@ -203,6 +203,10 @@ def run(ctx):
             elif base is not None and base.k == "DeclRefExpr" and base.get("d") in local_decls and \
                     base.get("dk") == "local" and "*" not in (base.t or ""):
                 ctx.ok("R7.region-write", key, where, what, "member of a region-local object", nontrivial=False)
+            elif base is not None and base.k == "DeclRefExpr" and _arg_class(base, body, local_decls, lv, per_iteration)[0] in ("private", "iteration"):
+                ctx.ok("R7.region-write", key, where, what,
+                       "through `%s`, which (followed through the region's locals) points to %s" % (
+                           base.name, _arg_class(base, body, local_decls, lv, per_iteration)[1]))
             else:
                 ctx.bad("R7.region-write", key, where, what,
                         "write through `%s` is not per-iteration, not region-local and not protected" % src(t)[:60])
